@@ -7,18 +7,19 @@ Notation step := (Model.step fx).
 Notation run_from := (Model.run_from fx).
 Notation run := (Model.run fx).
 Notation fresh := (Spec.fresh fx).
-Notation set_good := (SpecFacts.set_good fx).
+Notation base_good := (SpecFacts.base_good fx).
 Notation Inv := (StepFacts.Inv fx).
 Notation SInv := (StepFacts.SInv fx).
-Notation no_guard := (no_guard_fx fx).
 Notation KInv := (RepoFacts.KInv fx).
 
-(** ** what the guards mean for one operation *)
+(** ** the histories the theorems talk about: a rule set is created only when it
+    does not exist; no rule set (accepted or not) has two rules with the same id
+    (C06-F6) or — without fixes/C06-F4.diff — a rule listing a pattern twice *)
 
 Definition step_ok (S : sets) (o : op) : bool :=
   match o with
-  | Add s ds => negb (has_set S s) && set_good ds
-  | Update s ds => set_good ds && negb (spec_accepts S s ds && f1_step (get_set S s) ds)
+  | Add s ds => negb (has_set S s) && base_good ds
+  | Update s ds => base_good ds
   | Delete _ | Refused _ => true
   end.
 
@@ -30,22 +31,24 @@ Fixpoint ok_from (S : sets) (ops : list op) : bool :=
 
 (** ** UpdateRuleSet *)
 
-Lemma update_sound st S s ds :
-  Inv st -> Rel (known st) S -> SInv S -> set_good ds = true ->
-  (spec_accepts S s ds = true -> f1_step (get_set S s) ds = false ->
-     exists st', step st (Update s ds) = (st', None) /\ Inv st' /\ Rel (known st') (put_set S s ds)) /\
+Lemma update_sound D st S s ds :
+  Inv D st -> Rel D (known st) S -> SInv D S -> base_good ds = true ->
+  let D' := dirty_step S (Update s ds) D in
+  (spec_accepts S s ds = true ->
+     exists st', step st (Update s ds) = (st', None) /\ Inv D' st' /\ Rel D' (known st') (put_set S s ds)) /\
   (spec_accepts S s ds = false -> exists e, step st (Update s ds) = (st, Some e)).
 Proof.
-  intros HI HR HS Hg.
-  destruct (upd_del_phase fx st s ds HI Hg) as (d1 & Ed & R1 & F1).
-  unfold Model.step, gstep. cbv zeta. rewrite Ed, (upd_tba fx st s ds HI). split.
-  - intros A F. destruct (upd_accept fx st S s ds HI HR HS Hg d1 R1 F1 A) as (d2 & Ea & R2 & F2). rewrite Ea.
-    eexists. split; [reflexivity|]. rewrite (upd_known fx st s ds Hg). split.
-    + split; simpl; [apply (upd_KInv fx st S s ds HI HR HS Hg A) | exact R2 | exact F2].
-    + split; simpl; [apply (upd_mem st S s ds HR) | apply (upd_ord st S s ds HR F)].
+  intros HI HR HS Hg D'.
+  destruct (upd_del_phase fx D st s ds HI Hg) as (d1 & Ed & R1 & F1).
+  unfold Model.step, gstep. cbv zeta. rewrite Ed, (upd_tba fx D st s ds HI). split.
+  - intros A. destruct (upd_accept fx D st S s ds HI HR HS Hg d1 R1 F1 A) as (d2 & Ea & R2 & F2). rewrite Ea.
+    eexists. split; [reflexivity|]. rewrite (upd_known fx st s ds Hg).
+    destruct (upd_KInv fx D st S s ds HI HR HS Hg A) as [KI KB]. split.
+    + split; simpl; [exact KI | exact R2 | exact F2 | exact KB].
+    + split; simpl; [apply (upd_mem D st S s ds HR) | apply (upd_ord D st S s ds HR A)].
   - intro A.
     destruct (add_rules d1 (filter (fun n => negb (mem_rule n (filter (from_src s) (known st)))) (stamp s ds))) as [d2|e] eqn:Ea.
-    + rewrite (upd_complete fx st S s ds HI HR HS d1 d2 R1 F1 Ea) in A. discriminate.
+    + rewrite (upd_complete fx D st S s ds HI HR HS d1 d2 R1 Ea) in A. discriminate.
     + exists e. reflexivity.
 Qed.
 
@@ -67,71 +70,114 @@ Proof.
   apply rdef_list_eqb_eq. f_equal. symmetry. apply filter_all_true. reflexivity.
 Qed.
 
-Lemma no_rules_of Kn S s : Rel Kn S -> get_set S s = [] -> filter (from_src s) Kn = [].
+Lemma no_rules_of D Kn S s : Rel D Kn S -> get_set S s = [] -> filter (from_src s) Kn = [].
 Proof.
   intros R E. apply filter_all_false. intros r Hr. unfold from_src. apply Nat.eqb_neq. intro Es.
-  apply (r_mem _ _ R) in Hr. rewrite Es, E in Hr. destruct Hr.
+  apply (r_mem _ _ _ R) in Hr. rewrite Es, E in Hr. destruct Hr.
 Qed.
 
 (** ** DeleteRuleSet *)
 
-Lemma delete_sound st S s : Inv st -> Rel (known st) S -> SInv S ->
-  exists st', step st (Delete s) = (st', None) /\ Inv st' /\ Rel (known st') (del_set S s) /\ SInv (del_set S s).
+Lemma del_set_in_neq S s t dt : NoDup (map fst S) -> In (t, dt) (del_set S s) -> t <> s.
 Proof.
-  intros HI HR HS.
-  destruct (del_rules_spec fx (known st) (from_src s) (index st) (i_k _ _ HI) (i_v _ _ HI) (i_f _ _ HI)) as (d' & Ed & R' & F').
+  induction S as [|[u x] r IH]; simpl; intros ND H; [destruct H|].
+  inversion ND as [|? ? Hn Hd]; subst. destruct (Nat.eqb u s) eqn:E.
+  - apply Nat.eqb_eq in E. subst u. intro; subst t. apply Hn. apply in_map_iff. exists (s, dt). tauto.
+  - destruct H as [H|H]; [inversion H; subst; apply Nat.eqb_neq; exact E | apply (IH Hd H)].
+Qed.
+
+Lemma delete_sound D st S s : Inv D st -> Rel D (known st) S -> SInv D S ->
+  let D' := rm_src s D in
+  exists st', step st (Delete s) = (st', None) /\ Inv D' st' /\ Rel D' (known st') (del_set S s) /\ SInv D' (del_set S s).
+Proof.
+  intros HI HR HS D'.
+  destruct (del_rules_spec fx (clean D) (known st) (from_src s) (index st) (i_k _ _ _ HI) (i_v _ _ _ HI) (i_f _ _ _ HI))
+    as (d' & Ed & R' & F').
   unfold Model.step, gstep. cbv zeta. rewrite Ed. eexists. split; [reflexivity|].
   assert (EK : filter (fun r => negb (mem_rule r (filter (from_src s) (known st)))) (known st) =
                filter (fun r => negb (from_src s r)) (known st)).
   { apply filter_ext_in. intros r Hr. f_equal. apply bool_eq_iff. rewrite mem_rule_in, filter_In. tauto. }
-  rewrite EK. split; [|split].
-  - split; simpl; [apply KInv_filter; apply (i_k _ _ HI) | exact R' | exact F'].
+  rewrite EK.
+  (* what remains has no rule of source s *)
+  assert (Hno : forall x, In x (routes (filter (fun r => negb (from_src s r)) (known st))) -> rt_src x <> s).
+  { intros x Hx. apply in_routes_rule in Hx. apply filter_In in Hx as [_ Hx]. unfold from_src, rt_src in *.
+    apply negb_true_iff in Hx. apply Nat.eqb_neq. exact Hx. }
+  assert (Hcl : forall t, t <> s -> clean D' t = true -> clean D t = true).
+  { intros t N H. unfold D' in H. rewrite clean_rm in H. apply orb_true_iff in H as [H|H]; [|exact H].
+    apply Nat.eqb_eq in H. contradiction. }
+  split; [|split].
   - split; simpl.
-    + intro r. rewrite filter_In, (get_del_set S s (r_src r) (s_nodup _ _ HS)), (r_mem _ _ HR r).
+    + apply KInv_filter. apply (i_k _ _ _ HI).
+    + exact R'.
+    + intros q n v Hg Hv Hc. destruct (ReprV_in _ _ _ _ _ R' Hg Hv) as [Hin _].
+      apply (F' q n v Hg Hv). apply Hcl; [apply Hno; exact Hin | exact Hc].
+    + intros x y q Hx Hy Hqx Hqy Hc.
+      assert (Incl : incl (routes (filter (fun r => negb (from_src s r)) (known st))) (routes (known st))).
+      { intros z Hz. rewrite routes_filter in Hz. apply filter_In in Hz. tauto. }
+      apply (i_bt _ _ _ HI x y q (Incl x Hx) (Incl y Hy) Hqx Hqy). apply Hcl; [apply Hno; exact Hx | exact Hc].
+  - split; simpl.
+    + intro r. rewrite filter_In, (get_del_set S s (r_src r) (s_nodup _ _ _ HS)), (r_mem _ _ _ HR r).
       unfold from_src. rewrite (Nat.eqb_sym s). destruct (Nat.eqb (r_src r) s); simpl; [split; [intros [_ H]; discriminate | tauto] | tauto].
-    + intros t q. rewrite (get_del_set S s t (s_nodup _ _ HS)), filter_filter.
+    + intros t q Hc. rewrite (get_del_set S s t (s_nodup _ _ _ HS)), filter_filter.
       destruct (Nat.eqb s t) eqn:E.
       * apply Nat.eqb_eq in E. subst t. rewrite filter_all_false; [reflexivity|].
         intros r _. destruct (from_src s r); reflexivity.
-      * rewrite <- (r_ord _ _ HR t q). f_equal. f_equal. apply filter_ext. intro r. unfold from_src.
+      * apply Nat.eqb_neq in E.
+        rewrite <- (r_ord _ _ _ HR t q (Hcl t (fun H => E (eq_sym H)) Hc)). f_equal. f_equal.
+        apply filter_ext. intro r. unfold from_src.
         destruct (Nat.eqb (r_src r) t) eqn:E2; [|apply andb_false_r].
-        apply Nat.eqb_eq in E2. subst t. rewrite Nat.eqb_sym, E. reflexivity.
+        apply Nat.eqb_eq in E2. subst t.
+        assert (E3 : Nat.eqb (r_src r) s = false) by (apply Nat.eqb_neq; congruence). rewrite E3. reflexivity.
   - split.
-    + apply del_set_nodup. apply (s_nodup _ _ HS).
-    + intros t dt Ht. apply (s_good _ _ HS t dt). apply (del_set_in _ _ _ _ Ht).
-    + intros t u dt du p Ht Hu. apply (s_disj _ _ HS t u dt du p); eapply del_set_in; eassumption.
+    + apply del_set_nodup. apply (s_nodup _ _ _ HS).
+    + intros t dt Ht. apply (s_good _ _ _ HS t dt). apply (del_set_in _ _ _ _ Ht).
+    + intros t dt Ht Hc. apply (s_f2 _ _ _ HS t dt (del_set_in _ _ _ _ Ht)).
+      apply Hcl; [apply (del_set_in_neq S s t dt (s_nodup _ _ _ HS) Ht) | exact Hc].
+    + intros t u dt du p Ht Hu. apply (s_disj _ _ _ HS t u dt du p); eapply del_set_in; eassumption.
 Qed.
 
 (** ** one operation *)
 
-Lemma step_sound st S o : Inv st -> Rel (known st) S -> SInv S -> step_ok S o = true ->
+Lemma dirty_step_rejected S s ds D : spec_accepts S s ds = false -> dirty_step S (Update s ds) D = D.
+Proof. intro A. unfold dirty_step, dirty2_step, dirty1_step. rewrite A. reflexivity. Qed.
+
+Lemma dirty_step_add S s ds D : get_set S s = [] -> dirty_step S (Add s ds) D = dirty_step S (Update s ds) D.
+Proof.
+  intro E. unfold dirty_step, dirty2_step, dirty1_step. rewrite E, f1_step_nil, andb_false_r. reflexivity.
+Qed.
+
+Lemma step_sound D st S o : Inv D st -> Rel D (known st) S -> SInv D S -> step_ok S o = true ->
+  let D' := dirty_step S o D in
   exists st' res, step st o = (st', res) /\
     (res = None <-> spec_ok S o = true) /\ (res <> None -> st' = st) /\
-    Inv st' /\ Rel (known st') (spec_step S o) /\ SInv (spec_step S o).
+    Inv D' st' /\ Rel D' (known st') (spec_step S o) /\ SInv D' (spec_step S o).
 Proof.
   intros HI HR HS Hok.
-  assert (Upd : forall s ds, set_good ds = true ->
-            (spec_accepts S s ds = true -> f1_step (get_set S s) ds = false) ->
+  assert (Upd : forall s ds, base_good ds = true ->
+            let D' := dirty_step S (Update s ds) D in
             exists st' res, step st (Update s ds) = (st', res) /\
               (res = None <-> spec_accepts S s ds = true) /\ (res <> None -> st' = st) /\
-              Inv st' /\ Rel (known st') (if spec_accepts S s ds then put_set S s ds else S) /\
-              SInv (if spec_accepts S s ds then put_set S s ds else S)).
-  { intros s ds Hg Hf. destruct (update_sound st S s ds HI HR HS Hg) as [Acc Rej].
+              Inv D' st' /\ Rel D' (known st') (if spec_accepts S s ds then put_set S s ds else S) /\
+              SInv D' (if spec_accepts S s ds then put_set S s ds else S)).
+  { intros s ds Hg D'. destruct (update_sound D st S s ds HI HR HS Hg) as [Acc Rej].
     destruct (spec_accepts S s ds) eqn:A.
-    - destruct (Acc eq_refl (Hf eq_refl)) as (st' & E & I' & R').
+    - destruct (Acc eq_refl) as (st' & E & I' & R').
       exists st', None. split; [exact E|]. split; [tauto|]. split; [congruence|].
-      split; [exact I'|]. split; [exact R'|]. apply (upd_SInv fx S s ds HS Hg A).
+      split; [exact I'|]. split; [exact R'|]. apply (upd_SInv fx D S s ds HS Hg A).
     - destruct (Rej eq_refl) as (e & E). exists st, (Some e). split; [exact E|].
-      split; [split; discriminate|]. tauto. }
+      split; [split; discriminate|]. unfold D'. rewrite (dirty_step_rejected S s ds D A). tauto. }
   destruct o as [s ds|s ds|s|s]; simpl in Hok; unfold spec_ok, spec_step.
   - apply andb_true_iff in Hok as [Hn Hg]. apply negb_true_iff in Hn.
-    rewrite (add_as_update st s ds (no_rules_of _ S s HR (has_set_false_get S s Hn))).
-    apply Upd; [exact Hg|]. intros _. rewrite (has_set_false_get S s Hn). apply f1_step_nil.
-  - apply andb_true_iff in Hok as [Hg Hf]. apply Upd; [exact Hg|].
-    intro A. rewrite A in Hf. simpl in Hf. apply negb_true_iff in Hf. exact Hf.
-  - destruct (delete_sound st S s HI HR HS) as (st' & E & I' & R' & S').
-    exists st', None. split; [exact E|]. split; [tauto|]. split; [congruence|]. tauto.
-  - exists st, (Some ELoad). split; [reflexivity|]. split; [split; discriminate|]. tauto.
+    rewrite (add_as_update st s ds (no_rules_of D _ S s HR (has_set_false_get S s Hn))).
+    rewrite (dirty_step_add S s ds D (has_set_false_get S s Hn)). apply Upd. exact Hg.
+  - apply Upd. exact Hok.
+  - destruct (delete_sound D st S s HI HR HS) as (st' & E & I' & R' & S').
+    exists st', None. split; [exact E|]. split; [tauto|]. split; [congruence|].
+    unfold dirty_step, dirty2_step, dirty1_step.
+    assert (Eq : rm_src s (rm_src s D) = rm_src s D).
+    { unfold rm_src. rewrite filter_filter. apply filter_ext. intro t. destruct (Nat.eqb t s); reflexivity. }
+    rewrite Eq. tauto.
+  - exists st, (Some ELoad). split; [reflexivity|]. split; [split; discriminate|]. simpl. tauto.
 Qed.
 
 (** ** histories *)
@@ -139,14 +185,15 @@ Qed.
 Lemma run_from_cons st o ops : run_from st (o :: ops) = run_from (fst (step st o)) ops.
 Proof. reflexivity. Qed.
 
-Lemma run_sound ops : forall st S, Inv st -> Rel (known st) S -> SInv S -> ok_from S ops = true ->
-  Inv (run_from st ops) /\ Rel (known (run_from st ops)) (current_from S ops) /\ SInv (current_from S ops).
+Lemma run_sound ops : forall D st S, Inv D st -> Rel D (known st) S -> SInv D S -> ok_from S ops = true ->
+  let D' := dirty_from S D ops in
+  Inv D' (run_from st ops) /\ Rel D' (known (run_from st ops)) (current_from S ops) /\ SInv D' (current_from S ops).
 Proof.
-  induction ops as [|o ops IH]; intros st S HI HR HS Hok; simpl in Hok.
+  induction ops as [|o ops IH]; intros D st S HI HR HS Hok; simpl in Hok.
   - simpl. tauto.
   - apply andb_true_iff in Hok as [H1 H2].
-    destruct (step_sound st S o HI HR HS H1) as (st' & res & E & _ & _ & I' & R' & S').
-    rewrite run_from_cons, E. simpl. apply (IH st' (spec_step S o) I' R' S' H2).
+    destruct (step_sound D st S o HI HR HS H1) as (st' & res & E & _ & _ & I' & R' & S').
+    rewrite run_from_cons, E. simpl. apply (IH _ st' (spec_step S o) I' R' S' H2).
 Qed.
 
 (** ** the fresh load *)
@@ -157,14 +204,15 @@ Proof.
   intro H. apply orb_false_iff in H as [E H]. rewrite E. f_equal. apply IH. exact H.
 Qed.
 
-Lemma fresh_current S : forall S0, SInv (S0 ++ S) ->
-  current_from S0 (fresh_ops S) = S0 ++ S /\ ok_from S0 (fresh_ops S) = true.
+Lemma fresh_current S : forall S0, SInv [] (S0 ++ S) ->
+  current_from S0 (fresh_ops S) = S0 ++ S /\ ok_from S0 (fresh_ops S) = true /\ dirty_from S0 [] (fresh_ops S) = [].
 Proof.
   induction S as [|[s ds] S IH]; intros S0 HS; simpl.
   - rewrite app_nil_r. tauto.
   - assert (Hin : In (s, ds) (S0 ++ (s, ds) :: S)) by (apply in_app_iff; right; left; reflexivity).
-    destruct (s_good _ _ HS s ds Hin) as (Hg & Hv & Hk).
-    pose proof (s_nodup _ _ HS) as ND. rewrite map_app in ND. simpl in ND.
+    destruct (s_good _ _ _ HS s ds Hin) as (Hg & Hv & Hk).
+    pose proof (s_f2 _ _ _ HS s ds Hin (clean_nil s)) as Hf2.
+    pose proof (s_nodup _ _ _ HS) as ND. rewrite map_app in ND. simpl in ND.
     assert (Hn : has_set S0 s = false).
     { destruct (has_set S0 s) eqn:E; [|reflexivity]. apply has_set_in in E. exfalso.
       apply NoDup_remove_2 in ND. apply ND. apply in_app_iff. left. exact E. }
@@ -173,8 +221,9 @@ Proof.
       apply forallb_forall. intros [t dt] Ht. simpl. destruct (Nat.eqb t s) eqn:E; [reflexivity|]. simpl.
       apply Nat.eqb_neq in E. apply forallb_forall. intros p Hp. apply negb_true_iff.
       destruct (mem_pat p (pats dt)) eqn:M; [|reflexivity]. apply mem_pat_in in M. exfalso.
-      apply (s_disj _ _ HS s t ds dt p Hin); [apply in_app_iff; left; exact Ht | congruence | exact Hp | exact M]. }
-    rewrite A, Hn, Hg. simpl. rewrite (put_set_new S0 s ds Hn).
+      apply (s_disj _ _ _ HS s t ds dt p Hin); [apply in_app_iff; left; exact Ht | congruence | exact Hp | exact M]. }
+    unfold dirty_step, dirty2_step, dirty1_step.
+    rewrite A, Hn, Hg, Hf2. simpl. rewrite (put_set_new S0 s ds Hn).
     specialize (IH (S0 ++ [(s, ds)])). rewrite <- app_assoc in IH. simpl in IH. apply IH. exact HS.
 Qed.
 
@@ -188,19 +237,20 @@ Proof.
   apply (U y x q); assumption.
 Qed.
 
-Lemma rel_at_q_one K1 K2 S q x : KInv K1 -> KInv K2 -> Rel K1 S -> Rel K2 S ->
+Lemma rel_at_q_one K1 K2 S q x : KInv K1 -> KInv K2 -> Rel [] K1 S -> Rel [] K2 S ->
   In x (at_q q (routes K1)) -> at_q q (routes K1) = at_q q (routes K2).
 Proof.
   intros I1 I2 R1 R2 Hx. apply in_at_q in Hx as [Hx Hq].
-  rewrite (at_q_one_source K1 q x (proj1 (k_uni _ _ I1)) Hx Hq), (r_ord _ _ R1), <- (r_ord _ _ R2).
+  rewrite (at_q_one_source K1 q x (proj1 (k_uni _ _ I1)) Hx Hq), (r_ord _ _ _ R1 _ _ (clean_nil _)),
+          <- (r_ord _ _ _ R2 _ _ (clean_nil _)).
   assert (Hy : In x (at_q q (routes (filter (from_src (rt_src x)) K2)))).
-  { rewrite (r_ord _ _ R2), <- (r_ord _ _ R1). apply in_at_q. split; [|exact Hq].
+  { rewrite (r_ord _ _ _ R2 _ _ (clean_nil _)), <- (r_ord _ _ _ R1 _ _ (clean_nil _)). apply in_at_q. split; [|exact Hq].
     rewrite routes_filter. apply filter_In. split; [exact Hx|]. unfold from_src. apply Nat.eqb_refl. }
   apply in_at_q in Hy as [Hy _]. rewrite routes_filter in Hy. apply filter_In in Hy as [Hy _].
   symmetry. apply (at_q_one_source K2 q x (proj1 (k_uni _ _ I2)) Hy Hq).
 Qed.
 
-Lemma rel_at_q K1 K2 S q : KInv K1 -> KInv K2 -> Rel K1 S -> Rel K2 S ->
+Lemma rel_at_q K1 K2 S q : KInv K1 -> KInv K2 -> Rel [] K1 S -> Rel [] K2 S ->
   at_q q (routes K1) = at_q q (routes K2).
 Proof.
   intros I1 I2 R1 R2.
@@ -212,69 +262,100 @@ Proof.
     rewrite <- E1. apply (rel_at_q_one K1 K2 S q x I1 I2 R1 R2 Hx).
 Qed.
 
-(** ** main theorem (on [ok_from]) *)
+Lemma ReprF_all D d : D = [] -> ReprF (clean D) d -> ReprF all_src d.
+Proof. intros E F. subst D. apply (ReprF_mono (clean []) all_src d); [intros; reflexivity | exact F]. Qed.
 
-Theorem history_equals_fresh_ok ops : ok_from [] ops = true ->
+(** ** main theorem: when no source is left in the state C06-F1 / C06-F2 leave,
+    the index is that of a fresh load *)
+
+Theorem history_equals_fresh_ok ops : ok_from [] ops = true -> dirty ops = [] ->
   index (run ops) = index (fresh (current ops)).
 Proof.
-  intro Hok.
-  destruct (run_sound ops empty [] (Inv_empty fx) Rel_empty (SInv_empty fx) Hok) as (I1 & R1 & S1).
-  fold (run ops) in I1, R1. fold (current ops) in R1, S1.
-  destruct (fresh_current (current ops) [] S1) as [Ec Hokf]. simpl in Ec.
-  destruct (run_sound (fresh_ops (current ops)) empty [] (Inv_empty fx) Rel_empty (SInv_empty fx) Hokf) as (I2 & R2 & _).
-  rewrite Ec in R2. fold (run (fresh_ops (current ops))) in I2, R2. fold (fresh (current ops)) in I2, R2.
-  apply (Repr_eq _ _ _ _ (i_v _ _ I1) (i_f _ _ I1) (i_v _ _ I2) (i_f _ _ I2)).
-  intro q. apply (rel_at_q _ _ (current ops) q (i_k _ _ I1) (i_k _ _ I2) R1 R2).
+  intros Hok HD.
+  destruct (run_sound ops [] empty [] (Inv_empty fx []) (Rel_empty []) (SInv_empty fx []) Hok) as (I1 & R1 & S1).
+  fold (run ops) in I1, R1. fold (current ops) in R1, S1. fold (dirty ops) in I1, R1, S1. rewrite HD in I1, R1, S1.
+  destruct (fresh_current (current ops) [] S1) as (Ec & Hokf & Df). simpl in Ec.
+  destruct (run_sound (fresh_ops (current ops)) [] empty [] (Inv_empty fx []) (Rel_empty []) (SInv_empty fx []) Hokf) as (I2 & R2 & _).
+  rewrite Ec, Df in *. fold (run (fresh_ops (current ops))) in I2, R2. fold (fresh (current ops)) in I2, R2.
+  apply (Repr_eq _ _ _ _ (i_v _ _ _ I1) (ReprF_all [] _ eq_refl (i_f _ _ _ I1))
+                         (i_v _ _ _ I2) (ReprF_all [] _ eq_refl (i_f _ _ _ I2))).
+  intro q. apply (rel_at_q _ _ (current ops) q (i_k _ _ _ I1) (i_k _ _ _ I2) R1 R2).
 Qed.
 
-(** ** from the guards of the findings to [ok_from] *)
+(** ** from the guards to [ok_from] and [dirty] *)
 
-Definition set_guards_off (ops : list op) : Prop :=
-  forall o, In o ops -> set_good (op_set o) = true.
+Definition sets_base_good (ops : list op) : Prop :=
+  forall o, In o ops -> base_good (op_set o) = true.
 
-Lemma ok_from_guards ops : forall S, set_guards_off ops -> wf_from S ops = true -> f1_from S ops = false ->
-  ok_from S ops = true.
+Lemma ok_from_guards ops : forall S, sets_base_good ops -> wf_from S ops = true -> ok_from S ops = true.
 Proof.
-  induction ops as [|o ops IH]; intros S G W F; simpl in *; [reflexivity|].
-  apply andb_true_iff in W as [W1 W2]. apply orb_false_iff in F as [F1 F2].
+  induction ops as [|o ops IH]; intros S G W; simpl in *; [reflexivity|].
+  apply andb_true_iff in W as [W1 W2].
   apply andb_true_iff. split.
   - pose proof (G o (or_introl eq_refl)) as Hg. destruct o as [s ds|s ds|s|s]; simpl in *.
     + rewrite W1, Hg. reflexivity.
-    + rewrite Hg, F1. reflexivity.
+    + exact Hg.
     + reflexivity.
     + reflexivity.
   - apply IH; try assumption. intros o' Ho'. apply G. right. exact Ho'.
 Qed.
 
-Lemma no_guard_set_good ops : no_guard ops = true -> set_guards_off ops.
+(** the histories without duplicate ids (and, without fixes/C06-F4.diff, without a
+    pattern listed twice in a rule) *)
+Definition base_guard (ops : list op) : bool := guard_dupid ops || (negb (fix_F4 fx) && guard_F4 ops).
+
+Lemma base_guard_good ops : base_guard ops = false -> sets_base_good ops.
 Proof.
-  unfold no_guard_fx. rewrite negb_true_iff, !orb_false_iff.
-  intros [[[[[G1 G2] G3] G4] G5] G6] o Ho. unfold SpecFacts.set_good.
+  unfold base_guard. rewrite orb_false_iff. intros [G6 G4] o Ho. unfold SpecFacts.base_good.
   assert (X : forall (f : list rdef -> bool), existsb (fun o => f (op_set o)) ops = false -> f (op_set o) = false).
   { intros f H. destruct (f (op_set o)) eqn:E; [|reflexivity].
     assert (existsb (fun o => f (op_set o)) ops = true); [|congruence].
     apply existsb_exists. exists o. tauto. }
-  rewrite (X f2_set G2), (X dupid_set G6). simpl. rewrite andb_true_r.
+  rewrite (X dupid_set G6). simpl. rewrite andb_true_r.
   destruct (fix_F4 fx); [reflexivity|]. simpl in *. rewrite (X f4_set G4). reflexivity.
 Qed.
 
-Lemma no_guard_ok ops : wf_history ops = true -> no_guard ops = true -> ok_from [] ops = true.
+Lemma base_ok ops : wf_history ops = true -> base_guard ops = false -> ok_from [] ops = true.
+Proof. intros W G. apply ok_from_guards; [apply base_guard_good; exact G | exact W]. Qed.
+
+(** the history-global guards of C06-F1 / C06-F2 imply that no source is ever dirty *)
+Lemma guards_clean ops : forall S D, D = [] -> f1_from S ops = false -> guard_F2 ops = false -> dirty_from S D ops = [].
 Proof.
-  intros W G. apply ok_from_guards; [apply no_guard_set_good; exact G | exact W |].
-  unfold no_guard_fx in G. rewrite negb_true_iff, !orb_false_iff in G. unfold guard_F1 in G. tauto.
+  induction ops as [|o ops IH]; intros S D ED F1 F2; simpl in *; [exact ED|].
+  apply orb_false_iff in F1 as [F1a F1b]. unfold guard_F2 in F2. simpl in F2. apply orb_false_iff in F2 as [F2a F2b].
+  apply IH; try assumption. subst D. unfold dirty_step, dirty2_step, dirty1_step.
+  destruct o as [s ds|s ds|s|s]; simpl in *.
+  - rewrite F2a, andb_false_r. reflexivity.
+  - rewrite F1a, F2a, andb_false_r. reflexivity.
+  - reflexivity.
+  - reflexivity.
+Qed.
+
+Lemma no_guard_parts ops : no_guard_fx fx ops = true ->
+  base_guard ops = false /\ guard_F1 ops = false /\ guard_F2 ops = false.
+Proof.
+  unfold no_guard_fx, base_guard. rewrite negb_true_iff, !orb_false_iff. tauto.
 Qed.
 
 (** ** the property theorems *)
 
-Theorem history_equals_fresh ops : wf_history ops = true -> no_guard ops = true ->
+Theorem history_equals_fresh ops : wf_history ops = true -> base_guard ops = false -> dirty ops = [] ->
   index (run ops) = index (fresh (current ops)).
-Proof. intros W G. apply history_equals_fresh_ok. apply no_guard_ok; assumption. Qed.
+Proof. intros W G HD. apply history_equals_fresh_ok; [apply base_ok; assumption | exact HD]. Qed.
+
+(** the older, coarser form: no guard of a finding fires anywhere in the history *)
+Corollary history_equals_fresh_guards ops : wf_history ops = true -> no_guard_fx fx ops = true ->
+  index (run ops) = index (fresh (current ops)).
+Proof.
+  intros W G. destruct (no_guard_parts ops G) as (B & F1 & F2).
+  apply history_equals_fresh; [exact W | exact B |]. apply guards_clean; [reflexivity | exact F1 | exact F2].
+Qed.
 
 (** all requests, all conditions *)
-Corollary lookups_equal_fresh ops : wf_history ops = true -> no_guard ops = true ->
+Corollary lookups_equal_fresh ops : wf_history ops = true -> base_guard ops = false -> dirty ops = [] ->
   forall faithful path m,
     find_rule faithful (index (run ops)) path m = find_rule faithful (index (fresh (current ops))) path m.
-Proof. intros W G fa path m. rewrite (history_equals_fresh ops W G). reflexivity. Qed.
+Proof. intros W G HD fa path m. rewrite (history_equals_fresh ops W G HD). reflexivity. Qed.
 
 (** a rejected change leaves the repository as it was (for every state and
     operation, no guard needed: the work is done on a clone) *)
@@ -297,16 +378,17 @@ Proof.
     rewrite H1, A. tauto.
 Qed.
 
-(** along a history: an operation is rejected exactly when the specification
-    says it cannot be applied (invalid expression, expression owned by another
-    rule set), and then nothing changes *)
-Theorem rejected_iff_cannot_apply ops o : wf_history (ops ++ [o]) = true -> no_guard (ops ++ [o]) = true ->
+(** along a history — also one that went through C06-F1 / C06-F2 —: an operation
+    is rejected exactly when the specification says it cannot be applied (invalid
+    expression, incompatible wildcard names, expression owned by another rule
+    set), and then nothing changes *)
+Theorem rejected_iff_cannot_apply ops o : wf_history (ops ++ [o]) = true -> base_guard (ops ++ [o]) = false ->
   exists st' res, step (run ops) o = (st', res) /\
     (res = None <-> spec_ok (current ops) o = true) /\ (res <> None -> st' = run ops).
 Proof.
-  intros W G. destruct (ok_from_app ops o [] (no_guard_ok _ W G)) as [Hok Hs].
-  destruct (run_sound ops empty [] (Inv_empty fx) Rel_empty (SInv_empty fx) Hok) as (I1 & R1 & S1).
-  destruct (step_sound _ _ o I1 R1 S1 Hs) as (st' & res & E & A & B & _).
+  intros W G. destruct (ok_from_app ops o [] (base_ok _ W G)) as [Hok Hs].
+  destruct (run_sound ops [] empty [] (Inv_empty fx []) (Rel_empty []) (SInv_empty fx []) Hok) as (I1 & R1 & S1).
+  destruct (step_sound _ _ _ o I1 R1 S1 Hs) as (st' & res & E & A & B & _).
   exists st', res. tauto.
 Qed.
 
@@ -364,62 +446,97 @@ Proof.
 Qed.
 
 (** rules of deleted or replaced versions never match again: whatever a lookup
-    returns is a rule of the current version of an existing rule set *)
-Theorem found_is_current ops : wf_history ops = true -> no_guard ops = true ->
+    returns is a rule of the current version of an existing rule set (also after
+    C06-F1 / C06-F2) *)
+Theorem found_is_current ops : wf_history ops = true -> base_guard ops = false ->
   forall faithful path m r, find_rule faithful (index (run ops)) path m = Some r ->
     In (r_def r) (get_set (current ops) (r_src r)).
 Proof.
   intros W G fa path m r H.
-  destruct (run_sound ops empty [] (Inv_empty fx) Rel_empty (SInv_empty fx) (no_guard_ok _ W G)) as (I1 & R1 & _).
+  destruct (run_sound ops [] empty [] (Inv_empty fx []) (Rel_empty []) (SInv_empty fx []) (base_ok _ W G)) as (I1 & R1 & _).
   fold (run ops) in I1, R1. fold (current ops) in R1.
   unfold find_rule in H. destruct (lookup fa (S (length path)) m (index (run ops)) path) as [v| |] eqn:E; try discriminate.
   inversion H; subst r. destruct (lookup_in _ _ _ _ _ _ E) as (q & n & Hin & Hv).
-  apply (in_get _ _ _ (rv_sorted _ _ (i_v _ _ I1))) in Hin.
-  destruct (ReprV_in _ _ _ _ _ (i_v _ _ I1) Hin Hv) as [Hr _].
-  apply (r_mem _ _ R1). apply in_routes_rule. exact Hr.
+  apply (in_get _ _ _ (rv_sorted _ _ (i_v _ _ _ I1))) in Hin.
+  destruct (ReprV_in _ _ _ _ _ (i_v _ _ _ I1) Hin Hv) as [Hr _].
+  apply (r_mem _ _ _ R1). apply in_routes_rule. exact Hr.
+Qed.
+
+(** unchanged rules keep working: every route of every rule of a current rule set
+    is a value of the node of its pattern (also after C06-F1 / C06-F2) *)
+Theorem current_rules_indexed ops : wf_history ops = true -> base_guard ops = false ->
+  forall r x p, In (r_def r) (get_set (current ops) (r_src r)) -> In x (routes_of r) -> rpat x = Some p ->
+    exists n, get (index (run ops)) p = Some n /\ In x (vals n).
+Proof.
+  intros W G r x p Hr Hx Hp.
+  destruct (run_sound ops [] empty [] (Inv_empty fx []) (Rel_empty []) (SInv_empty fx []) (base_ok _ W G)) as (I1 & R1 & _).
+  fold (run ops) in I1, R1. fold (current ops) in R1.
+  apply (r_mem _ _ _ R1) in Hr.
+  assert (Hin : In x (at_q p (routes (known (run ops))))).
+  { apply in_at_q. split; [apply in_routes; exists r; tauto | apply has_pat_rpat; exact Hp]. }
+  rewrite <- (rv_vals _ _ (i_v _ _ _ I1) p) in Hin. unfold vals_at in Hin.
+  destruct (get (index (run ops)) p) as [n|]; [exists n; tauto | destruct Hin].
 Qed.
 
 (** same-source constraint: all rules sharing a path expression come from one rule set *)
-Theorem node_has_one_source ops : wf_history ops = true -> no_guard ops = true ->
+Theorem node_has_one_source ops : wf_history ops = true -> base_guard ops = false ->
   forall q n x y, get (index (run ops)) q = Some n -> In x (vals n) -> In y (vals n) -> rt_src x = rt_src y.
 Proof.
   intros W G q n x y Hg Hx Hy.
-  destruct (run_sound ops empty [] (Inv_empty fx) Rel_empty (SInv_empty fx) (no_guard_ok _ W G)) as (I1 & _ & _).
+  destruct (run_sound ops [] empty [] (Inv_empty fx []) (Rel_empty []) (SInv_empty fx []) (base_ok _ W G)) as (I1 & _ & _).
   fold (run ops) in I1.
-  destruct (ReprV_in _ _ _ _ _ (i_v _ _ I1) Hg Hx) as [Hx1 Hx2].
-  destruct (ReprV_in _ _ _ _ _ (i_v _ _ I1) Hg Hy) as [Hy1 Hy2].
-  apply (proj1 (k_uni _ _ (i_k _ _ I1)) x y q); assumption.
+  destruct (ReprV_in _ _ _ _ _ (i_v _ _ _ I1) Hg Hx) as [Hx1 Hx2].
+  destruct (ReprV_in _ _ _ _ _ (i_v _ _ _ I1) Hg Hy) as [Hy1 Hy2].
+  apply (proj1 (k_uni _ _ (i_k _ _ _ I1)) x y q); assumption.
 Qed.
 
 End Fx.
 
-(** ** the tree as it is now: all three repairs, the guards of the open findings *)
+(** ** deleting a rule set cleans its source *)
 
-Lemma open_guards_all_fix ops : open_guards ops = false -> no_guard_fx all_fix ops = true.
+Lemma dirty_from_app ops1 : forall S D ops2,
+  dirty_from S D (ops1 ++ ops2) = dirty_from (current_from S ops1) (dirty_from S D ops1) ops2.
+Proof. induction ops1 as [|o r IH]; intros S D ops2; simpl; [reflexivity | apply IH]. Qed.
+
+Lemma not_in_rm_src s D : ~ In s (rm_src s D).
+Proof. unfold rm_src. rewrite filter_In. intros [_ H]. rewrite Nat.eqb_refl in H. discriminate. Qed.
+
+Theorem delete_cleans ops s : ~ In s (dirty (ops ++ [Delete s])).
 Proof.
-  unfold open_guards, no_guard_fx. simpl. rewrite !orb_false_iff. intros [[A B] C]. rewrite A, B, C. reflexivity.
+  unfold dirty. rewrite dirty_from_app. simpl. unfold dirty_step, dirty2_step, dirty1_step.
+  intro H. apply (not_in_rm_src s (rm_src s (dirty_from [] [] ops))). exact H.
 Qed.
 
-Theorem now_history_equals_fresh ops : wf_history ops = true -> open_guards ops = false ->
-  index (run all_fix ops) = index (fresh all_fix (current ops)).
-Proof. intros W G. apply history_equals_fresh; [exact W | apply open_guards_all_fix; exact G]. Qed.
+(** ** the tree as it is now: all three repairs *)
 
-Theorem now_lookups_equal_fresh ops : wf_history ops = true -> open_guards ops = false ->
+Lemma base_guard_all_fix ops : guard_dupid ops = false -> base_guard all_fix ops = false.
+Proof. intro H. unfold base_guard. simpl. rewrite H. reflexivity. Qed.
+
+Theorem now_history_equals_fresh ops : wf_history ops = true -> guard_dupid ops = false -> dirty ops = [] ->
+  index (run all_fix ops) = index (fresh all_fix (current ops)).
+Proof. intros W G D. apply history_equals_fresh; [exact W | apply base_guard_all_fix; exact G | exact D]. Qed.
+
+Theorem now_lookups_equal_fresh ops : wf_history ops = true -> guard_dupid ops = false -> dirty ops = [] ->
   forall pinned_lookup path m,
     find_rule pinned_lookup (index (run all_fix ops)) path m =
     find_rule pinned_lookup (index (fresh all_fix (current ops))) path m.
-Proof. intros W G. apply lookups_equal_fresh; [exact W | apply open_guards_all_fix; exact G]. Qed.
+Proof. intros W G D. apply lookups_equal_fresh; [exact W | apply base_guard_all_fix; exact G | exact D]. Qed.
 
-Theorem now_rejected_iff_cannot_apply ops o : wf_history (ops ++ [o]) = true -> open_guards (ops ++ [o]) = false ->
+Theorem now_rejected_iff_cannot_apply ops o : wf_history (ops ++ [o]) = true -> guard_dupid (ops ++ [o]) = false ->
   exists st' res, step all_fix (run all_fix ops) o = (st', res) /\
     (res = None <-> spec_ok (current ops) o = true) /\ (res <> None -> st' = run all_fix ops).
-Proof. intros W G. apply rejected_iff_cannot_apply; [exact W | apply open_guards_all_fix; exact G]. Qed.
+Proof. intros W G. apply rejected_iff_cannot_apply; [exact W | apply base_guard_all_fix; exact G]. Qed.
 
-Theorem now_found_is_current ops : wf_history ops = true -> open_guards ops = false ->
+Theorem now_found_is_current ops : wf_history ops = true -> guard_dupid ops = false ->
   forall pinned_lookup path m r, find_rule pinned_lookup (index (run all_fix ops)) path m = Some r ->
     In (r_def r) (get_set (current ops) (r_src r)).
-Proof. intros W G. apply found_is_current; [exact W | apply open_guards_all_fix; exact G]. Qed.
+Proof. intros W G. apply found_is_current; [exact W | apply base_guard_all_fix; exact G]. Qed.
 
-Theorem now_node_has_one_source ops : wf_history ops = true -> open_guards ops = false ->
+Theorem now_current_rules_indexed ops : wf_history ops = true -> guard_dupid ops = false ->
+  forall r x p, In (r_def r) (get_set (current ops) (r_src r)) -> In x (routes_of r) -> rpat x = Some p ->
+    exists n, get (index (run all_fix ops)) p = Some n /\ In x (vals n).
+Proof. intros W G. apply current_rules_indexed; [exact W | apply base_guard_all_fix; exact G]. Qed.
+
+Theorem now_node_has_one_source ops : wf_history ops = true -> guard_dupid ops = false ->
   forall q n x y, get (index (run all_fix ops)) q = Some n -> In x (vals n) -> In y (vals n) -> rt_src x = rt_src y.
-Proof. intros W G. apply node_has_one_source; [exact W | apply open_guards_all_fix; exact G]. Qed.
+Proof. intros W G. apply node_has_one_source; [exact W | apply base_guard_all_fix; exact G]. Qed.
